@@ -75,6 +75,10 @@ impl Read for ChunkReader<'_> {
             if self.next < self.chunks.len() {
                 self.left = self.chunks[self.next];
                 self.next += 1;
+                if self.left == 0 {
+                    // a 0 in the schedule: this call is interrupted (the non-fatal "try again" outcome of `Read`)
+                    return Err(std::io::Error::new(std::io::ErrorKind::Interrupted, "interrupted"));
+                }
             } else if self.cyclic && spins == 0 && !self.chunks.is_empty() {
                 self.next = 0;
                 spins = 1;
@@ -261,7 +265,11 @@ fn encode_check(pieces: &[&[u8]], flush: bool, limit: usize) -> Option<(String, 
     }
 }
 
-const CYCLIC: &[&[usize]] = &[&[1], &[2], &[3], &[4], &[5], &[7], &[1, 4], &[4, 1], &[64], &[3, 1], &[1, 3], &[2, 2, 1]];
+const CYCLIC: &[&[usize]] = &[
+    &[1], &[2], &[3], &[4], &[5], &[7], &[1, 4], &[4, 1], &[64], &[3, 1], &[1, 3], &[2, 2, 1],
+    // schedules with interrupted reads (0)
+    &[1, 0], &[2, 0], &[3, 0, 1], &[0, 4], &[1, 0, 0, 1], &[2, 0, 2, 0, 64],
+];
 const DSTS: &[&[usize]] = &[&[1], &[2], &[3], &[4], &[5], &[63], &[64], &[65], &[1000], &[0, 3], &[1, 64], &[2, 1000, 1]];
 
 pub fn run(ctx: &Ctx) -> Result<Report, String> {
